@@ -447,6 +447,10 @@ pub fn check_history(t: &Trace, programs: &[Vec<(u8, ROp)>], pid: &str) -> Vec<V
 
 // ------------------------------------------------------------------ cases
 
+fn spawns(op: ROp) -> bool {
+    matches!(op, ROp::RegisterNew | ROp::ReplaceNew)
+}
+
 fn push_case(v: &mut Vec<Case>, programs: Vec<Vec<(u8, ROp)>>, preregistered: bool, bound: Option<u32>) {
     let desc = format!(
         "registry pre={} programs={}",
@@ -501,7 +505,8 @@ fn cases(tier: Tier) -> Vec<Case> {
                     if x == ROp::Setup || y == ROp::Setup || z == ROp::Setup {
                         continue; // Setup == FromRegistry without the handle; covered above
                     }
-                    push_case(&mut v, vec![vec![(1, x), (1, y)], vec![(1, z)]], pre, None);
+                    let heavy = [x, y, z].iter().filter(|o| spawns(**o)).count() >= 2;
+                    push_case(&mut v, vec![vec![(1, x), (1, y)], vec![(1, z)]], pre, if heavy && tier == Tier::Quick { Some(4) } else { None });
                 }
             }
         }
@@ -515,7 +520,8 @@ fn cases(tier: Tier) -> Vec<Case> {
                     if x == ROp::Setup || y == ROp::Setup || z == ROp::Setup {
                         continue;
                     }
-                    push_case(&mut v, vec![vec![(1, x)], vec![(1, y)], vec![(1, z)]], pre, None);
+                    let heavy = [x, y, z].iter().filter(|o| spawns(**o)).count() >= 2;
+                    push_case(&mut v, vec![vec![(1, x)], vec![(1, y)], vec![(1, z)]], pre, if heavy && tier == Tier::Quick { Some(4) } else { None });
                 }
             }
         }
